@@ -1,7 +1,7 @@
 """Texts for MANIFEST.json; the per-property texts live in config/Cxx.json ("text", "note")."""
 from checks_config import CHECKS
 
-HOOK_COMMITS = ["ad0b5fa", "87c1c83"]
+HOOK_COMMITS = ["ad0b5fa", "87c1c83", "c2cb91a"]
 NOT_APPLICABLE = {}
 TEXTS = {pid: {"text": c["text"], "note": c["note"], **({"technique": c["technique"]} if "technique" in c else {})}
          for pid, c in CHECKS.items()}
